@@ -194,6 +194,82 @@ def check_import(case, ctx):
                         tagged("C16/import/row-network", what + " row WIF", row[3], net, ctx)
 
 
+def check_mismatch(case, ctx):
+    """BaseWallet(master, testnet): the wallet's network is the `testnet` argument, whatever flag the node carries.
+    Only wallet-level outputs are judged (node.extended_*_key() defaults follow the node's own flag by design)."""
+    from btc_hd_wallet.bip32 import PrvKeyNode
+    BaseWallet, PaperWallet = _impl()
+    try:
+        R.master(case["seed"])
+    except R.Invalid:
+        return
+    testnet = case["testnet"]
+    net = NET[testnet]
+    node = PrvKeyNode.master_key(case["seed"], not testnet)        # the node carries the OTHER network's flag
+    w = PaperWallet(node, testnet) if case["positional"] else PaperWallet(master=node, testnet=testnet)
+    st_, data = call(w.generate, case["account"], (0, 2))
+    if st_ == "exc":
+        raise Violation("C16/mismatch/raised", "generate raised %r" % (data,))
+    for sec_name in ("BIP44", "BIP49", "BIP84"):
+        keys = data[sec_name]["account_extended_keys"]
+        if keys["path"].split("/")[2] != ("1'" if testnet else "0'"):
+            raise Violation("C16/path/coin-type", "%s account path %s on a %snet wallet" % (sec_name, keys["path"], net))
+        tagged("C16/mismatch/account-key-network", "%s account pub (wallet testnet=%s, node flag %s)" % (sec_name, testnet, not testnet),
+               keys["pub"], net, ctx, ("xpub",))
+        tagged("C16/mismatch/account-key-network", "%s account prv" % sec_name, keys["prv"], net, ctx, ("xprv",))
+        for row in data[sec_name]["groups"]:
+            tagged("C16/mismatch/row-network", "%s row address" % sec_name, row[1], net, ctx)
+            tagged("C16/mismatch/row-network", "%s row WIF" % sec_name, row[3], net, ctx, ("wif",))
+    child = w.master.derive_path([H + 84, H + (1 if testnet else 0), H])
+    k2 = w.node_extended_keys(child)
+    tagged("C16/mismatch/node-keys-network", "node_extended_keys pub", k2["pub"], net, ctx, ("xpub",))
+    tagged("C16/mismatch/node-keys-network", "node_extended_keys prv", k2["prv"], net, ctx, ("xprv",))
+    for kind in KINDS:
+        tagged("C16/mismatch/address-network", kind, getattr(w, kind + "_address")(child), net, ctx)
+
+
+def check_two_networks(case, ctx):
+    """A mainnet and a testnet wallet generate at the same time (deterministic line-level interleaving)."""
+    from vlib.sched import Scheduler
+    import btc_hd_wallet.paper_wallet as mp
+    import btc_hd_wallet.wallet_utils as mw
+    import btc_hd_wallet.base_wallet as mb
+    BaseWallet, PaperWallet = _impl()
+    try:
+        R.master(case["seed"])
+    except R.Invalid:
+        return
+    wallets = [PaperWallet.from_bip39_seed_bytes(case["seed"], tn) for tn in (False, True)]
+
+    def runner(w):
+        def run():
+            out = []
+            for purpose in case["purposes"]:
+                acct, rows = getattr(w, "bip%d" % purpose)(case["account"], (0, 1))
+                out.append((purpose, acct, rows))
+            return out
+        return run
+    sched = Scheduler([tuple(x) for x in case["plan"]], [mp.__file__, mw.__file__, mb.__file__])
+    results, errors = sched.run([runner(w) for w in wallets])
+    ctx.count("switches", sched.switches)
+    ctx.nontrivial = sched.switches >= 2
+    for t, w in enumerate(wallets):
+        if t in errors:
+            raise Violation("C16/threads/crashed", "thread %d raised %r" % (t, errors[t]))
+        net = NET[bool(w.testnet)]
+        for purpose, acct, rows in results[t]:
+            want_path = "m/%d'/%d'/%d'" % (purpose, 1 if w.testnet else 0, case["account"])
+            if acct["path"] != want_path:
+                raise Violation("C16/threads/coin-type", "with a %s wallet generating concurrently, the %snet wallet's BIP%d "
+                                "account path is %s, expected %s" % (NET[not w.testnet], net, purpose, acct["path"], want_path))
+            tagged("C16/threads/account-key-network", "BIP%d account pub" % purpose, acct["pub"], net, ctx, ("xpub",))
+            for row in rows:
+                if row[0].split("/")[2] != ("1'" if w.testnet else "0'"):
+                    raise Violation("C16/threads/coin-type", "row path %s on the %snet wallet" % (row[0], net))
+                tagged("C16/threads/row-network", "row address", row[1], net, ctx)
+                tagged("C16/threads/row-network", "row WIF", row[3], net, ctx, ("wif",))
+
+
 def clauses():
     return [
         Clause("wallet", check_wallet,
@@ -209,6 +285,22 @@ def clauses():
                nontrivial=lambda c: c["testnet"] or any(len(p) >= 2 and p[1] in (H + 1, 1) for p in c["paths"]),
                classes=lambda c: ["test" if c["testnet"] else "main", "rows=%d" % c["rows"]],
                n={"quick": 220, "thorough": 8000}, shards={"quick": 16, "thorough": 16}),
+        Clause("node-flag-mismatch", check_mismatch,
+               "PaperWallet(master, testnet) (positional and keyword) where the master node carries the other network's "
+               "flag: every wallet-level output (account keys, rows, coin type, node_extended_keys, addresses) follows the "
+               "wallet's network", gen=lambda tier: st.fixed_dictionaries({
+                   "seed": S.seeds(16, 64), "testnet": st.booleans(), "positional": st.booleans(),
+                   "account": st.sampled_from([0, 1, 7])}),
+               nontrivial=lambda c: True, n={"quick": 60, "thorough": 3000}, shards={"quick": 12, "thorough": 16}),
+        Clause("two-networks-threads", check_two_networks,
+               "a mainnet and a testnet wallet over the same seed run bip44/49/84 at the same time under the deterministic "
+               "line-level scheduler (paper_wallet.py, wallet_utils.py, base_wallet.py traced): each result carries its own "
+               "wallet's coin type and network; non-trivial = >= 2 switches (measured)",
+               gen=lambda tier: st.fixed_dictionaries({
+                   "seed": S.seeds(16, 64), "account": st.sampled_from([0, 1, 5]),
+                   "purposes": st.lists(st.sampled_from([44, 49, 84]), min_size=1, max_size=3),
+                   "plan": st.lists(st.tuples(st.integers(0, 1), st.integers(1, 6)), min_size=4, max_size=60)}),
+               n={"quick": 160, "thorough": 6000}, shards={"quick": 16, "thorough": 16}),
         Clause("import", check_import,
                "a reference node (depth 0..3) exported under all 12 versions and re-imported: wallet.testnet equals the "
                "prefix's network and every string it emits for its master and a normal child (addresses, default "
